@@ -15,6 +15,13 @@
  *       one scenario per line: threads separated by '|', each thread = operations as above (executed by its own
  *       pthread, free running, inv/res stamped around every call); then the sequential drain as above.
  *
+ *   sched_drive explore <ncores> <scenarios.txt> <trace.ndjson> <limit> <meta.ndjson> [seed]
+ *       scenarios as for conc (at most 8 threads); every interleaving of the threads at yield-point granularity
+ *       (each parsec_atomic_* operation, fence and marked spin of the hooked build; operation boundaries) is executed
+ *       under the cooperative scheduler harness/common/vsched.h, depth-first, at most <limit> executions per
+ *       scenario (when the limit is hit, limit/2 seeded random schedules are added); events as for conc;
+ *       meta: {"scenario":K,"explored":N,"exhaustive":true|false,"random":R} per scenario.
+ *
  * trace events:  {"e":"S","es":E,"d":D,"ids":[..],"ps":[..]}  {"e":"X","es":E,"id":N,"rd":RD}      (seq)
  *                {"e":"Sinv","t":T,"es":E,"d":D,"ids":[..]} {"e":"Sres","t":T} {"e":"Xinv","t":T,"es":E}
  *                {"e":"Xres","t":T,"id":N}  {"e":"Join"}  then X events of the drain, {"e":"End","n":NSTREAMS} (conc)
@@ -34,6 +41,7 @@
 #include <string.h>
 #define VT_LINE 1024
 #include "vtrace.h"
+#include "vsched.h"
 
 #define MAXTASKS 8192
 #define MAXOPS   4096
@@ -170,10 +178,15 @@ static void drain(FILE *out)
     } while( got );
 }
 
-static void free_tasks(void)
+static void release_tasks(void)
 {
     int i;
     for( i = 1; i <= ntasks; i++ ) if( tasks[i] ) { PARSEC_OBJ_RELEASE(tasks[i]); tasks[i] = NULL; }
+}
+
+static void free_tasks(void)
+{
+    release_tasks();
     ntasks = 0;
 }
 
@@ -284,6 +297,99 @@ static int run_conc(const char *in_path, const char *out_path, unsigned seed)
     return 0;
 }
 
+/* ------------------------------------------------------------------------------------------ controlled */
+static thr_t xthr[VS_MAXT];
+static int xnthr;
+static long xexec;
+
+static void xbody(int tid, void *arg)
+{
+    thr_t *th = &xthr[tid];
+    char buf[VT_LINE - 96];
+    int i;
+    (void)arg;
+    for( i = 0; i < th->nops; i++ ) {
+        op_t *o = &th->ops[i];
+        if( i > 0 ) vs_yield();                          /* operation boundary = yield point */
+        if( 'S' == o->kind ) {
+            parsec_task_t *ring = make_ring(o);
+            fmt_ring(buf, sizeof(buf), o, 0);
+            vt_ev("\"e\":\"Sinv\",\"t\":%d,\"vp\":%d,\"es\":%d,\"d\":%d,%s", th->t, o->vp, o->es, o->d, buf);
+            parsec_current_scheduler->module.schedule(stream(o->vp, o->es), ring, o->d);
+            vt_ev("\"e\":\"Sres\",\"t\":%d", th->t);
+        } else {
+            int32_t rd = 0;
+            parsec_task_t *t;
+            vt_ev("\"e\":\"Xinv\",\"t\":%d,\"vp\":%d,\"es\":%d", th->t, o->vp, o->es);
+            t = parsec_current_scheduler->module.select(stream(o->vp, o->es), &rd);
+            vt_ev("\"e\":\"Xres\",\"t\":%d,\"id\":%d", th->t, task_id(t));
+        }
+    }
+}
+
+static int xonce(void *ctx, const unsigned char *sched, int slen, vs_run_t *r)
+{
+    (void)ctx;
+    if( xexec++ ) vt_reset_marker();
+    vs_run(r, xnthr, xbody, NULL, sched, slen, 3000);
+    vt_dump();
+    if( r->deadlock ) {                                  /* parked threads: cannot continue safely */
+        vt_raw("{\"e\":\"Timeout\",\"why\":\"no thread can move or step budget exhausted\"}");
+        vt_close();
+        _exit(0);
+    }
+    vt_raw("{\"e\":\"Join\"}");
+    drain(vt_file);
+    vt_raw("{\"e\":\"End\",\"n\":%d}", nstreams);
+    release_tasks();
+    return 0;
+}
+
+static int run_explore(const char *in_path, const char *out_path, long limit, const char *meta_path, unsigned seed)
+{
+    static vs_run_t rr;
+    static unsigned char rsched[512];
+    static op_t ops[VS_MAXT][MAXOPS / 8];
+    char *line = NULL; size_t cap = 0; long nscen = 0;
+    FILE *in = fopen(in_path, "r"), *meta = fopen(meta_path, "w");
+    if( !in || !meta ) die("cannot open scenarios / meta");
+    if( vt_open(out_path) ) die("cannot open trace");
+    vs_install();
+    while( getline(&line, &cap, in) > 0 ) {
+        char *save = NULL, *tok;
+        long n;
+        int totops = 0;
+        xnthr = 0; ntasks = 0;
+        for( tok = strtok_r(line, "|\n", &save); tok; tok = strtok_r(NULL, "|\n", &save) ) {
+            if( xnthr >= VS_MAXT ) die("too many threads");
+            xthr[xnthr].t = xnthr + 1;
+            xthr[xnthr].ops = ops[xnthr];
+            xthr[xnthr].nops = parse_ops(tok, ops[xnthr], MAXOPS / 8);
+            totops += xthr[xnthr].nops;
+            xnthr++;
+        }
+        vt_init(2 * totops + 16);
+        long nrand = 0;
+        n = vs_explore(xonce, NULL, limit);
+        if( n < 0 ) {
+            /* the depth-first slice only varies the end of the schedule: add seeded random schedules */
+            unsigned rs = seed * 2654435761u + (unsigned)nscen * 40503u + 17u;
+            for( nrand = 0; nrand < limit / 2; nrand++ ) {
+                int k;
+                for( k = 0; k < (int)sizeof(rsched); k++ ) rsched[k] = (unsigned char)(rand_r(&rs) % xnthr);
+                xonce(NULL, rsched, (int)sizeof(rsched), &rr);
+            }
+        }
+        fprintf(meta, "{\"scenario\":%ld,\"explored\":%ld,\"exhaustive\":%s,\"random\":%ld}\n", nscen, n < 0 ? -n : n, n < 0 ? "false" : "true", nrand);
+        fflush(meta);
+        nscen++;
+        ntasks = 0;
+    }
+    fclose(meta);
+    vt_close();
+    return 0;
+}
+
 int main(int argc, char **argv)
 {
     int provided, ncores, rc, i;
@@ -308,6 +414,7 @@ int main(int argc, char **argv)
             parsec_current_scheduler->component->base_version.mca_component_name, nstreams, nvp);
     if( !strcmp(argv[1], "seq") ) rc = run_seq(argv[3], argv[4]);
     else if( !strcmp(argv[1], "conc") ) rc = run_conc(argv[3], argv[4], argc > 5 ? (unsigned)atoi(argv[5]) : 1u);
+    else if( !strcmp(argv[1], "explore") && argc > 6 ) rc = run_explore(argv[3], argv[4], atol(argv[5]), argv[6], argc > 7 ? (unsigned)atoi(argv[7]) : 1u);
     else die("bad mode");
     parsec_fini(&pctx);
     MPI_Finalize();
